@@ -1,5 +1,5 @@
 """cached pipeline stages shared by the per-property checks"""
-import json, os, time
+import json, os, time, random
 from .util import *
 from . import corpus, tlc, tlaval
 
@@ -62,7 +62,7 @@ def tracegen_stage(tier_, key):
         lineof = {}
         out = []
         directed, seen_dir = [], {}
-        for m in findings:
+        for m in sorted(findings, key=lambda m: (byid[m[1]]["cfg"]["max"] > 600, )):
             kind, rid, evix, tag, why = m[0], m[1], m[2], m[3], m[4]
             out.append({"kind": kind, "job": byid[rid], "event": evix, "tag": tag, "why": why if isinstance(why, str) else json.dumps(why)})
             if kind == "D" and tag == "enabled" and not isinstance(why, str):
@@ -87,11 +87,13 @@ def tracegen_stage(tier_, key):
         TYPED = [0x61, 0x65, 0x73, 0x75, 0x90, 0x64, 0x93, 0x52, 0x81, 0x92, 0x62, 0x6f, 0x32, 0x30]
         CONS = [0x28, 0x4e, 0x29, 0x7d, 0x63, 0x5d, 0x8f, 0x74, 0x6c]
         INTFAM = {0x49, 0x4a, 0x4b, 0x4d, 0x4c, 0x8a, 0x8b}
-        eff = [m for m in findings if m[0] == "D" and m[3] == "effect"]
+        # short programs first: exploring from a 4 000-opcode generation costs thousands of long re-runs
+        eff = sorted([m for m in findings if m[0] == "D" and m[3] == "effect"], key=lambda m: (byid[m[1]]["cfg"]["max"], m[1], m[2]))
         seen_eff, explored = set(), []
         for m in eff:
             rid, evix = m[1], m[2]
             j = byid[rid]
+            if j["cfg"]["max"] > 600 and seen_eff: continue
             k = (j["cfg"]["P"], json.dumps(j["cfg"]["muts"]))
             if k in seen_eff or len(seen_eff) >= 3: continue
             seen_eff.add(k)
@@ -107,7 +109,7 @@ def tracegen_stage(tier_, key):
                         dj = dict(j); dj["id"] = 2000000 + len(explored) + len(batch)
                         dj["force"] = [[b0 + i, o] for i, o in enumerate(path + [op])]
                         batch.append(dj)
-                if not batch or len(explored) + len(batch) > 2500: break
+                if not batch or len(explored) + len(batch) > (2500 if j["cfg"]["max"] <= 600 else 300): break
                 jf = os.path.join(d, "explore_jobs.json"); json.dump(batch, open(jf, "w"))
                 of = os.path.join(d, "explore_traces.ndjson")
                 run([PFV, "run-jobs", jf, of, str(CORES)], timeout=3600)
@@ -189,6 +191,23 @@ def bytes_stage(tier_, key):
         of = os.path.join(d, "bytes_traces.ndjson")
         t0 = time.time()
         run([PFV, "run-jobs", jf, of, str(CORES)], timeout=7200)
+        # process history: in ONE fresh process and ONE thread, the protocols (and flag settings) in descending and
+        # in shuffled order - what the first generator of a process did must not leak into later ones
+        hist_jobs = []
+        rng2 = random.Random(sub_seed("bytes-order", tier_))
+        n0 = max(j["id"] for j in jobs) + 1
+        for order in (list(range(5, -1, -1)), rng2.sample(range(6), 6)):
+            batch = []
+            for P in order:
+                for k in range(4 if tier_ == "quick" else 20):
+                    batch.append({"id": n0 + len(hist_jobs) + len(batch), "cfg": corpus.cfg(P, ext=bool(k % 2), buf=bool(k % 3 == 0)), "mode": "seed",
+                                  "seed": rng2.getrandbits(48), "rec": False, "deep": 0})
+            hjf = os.path.join(d, "bytes_hist_jobs.json"); json.dump(batch, open(hjf, "w"))
+            hof = os.path.join(d, "bytes_hist_traces.ndjson")
+            run([PFV, "run-jobs", hjf, hof, "1"], timeout=3600)
+            open(of, "a").write(open(hof).read())
+            hist_jobs += batch
+        jobs = jobs + hist_jobs
         t_gen = time.time() - t0
         byid = {j["id"]: j for j in jobs}
         lines, weights = [], []
